@@ -126,6 +126,9 @@ func (d *floatDecoder) DecodeStream(s *Stream, depth int64, p unsafe.Pointer) er
 	if bytes == nil {
 		return nil
 	}
+	if !validNumber(bytes) {
+		return errors.ErrSyntax(invalidNumberMessage(bytes), s.totalOffset())
+	}
 	str := *(*string)(unsafe.Pointer(&bytes))
 	f64, err := strconv.ParseFloat(str, 64)
 	if err != nil {
@@ -147,6 +150,9 @@ func (d *floatDecoder) Decode(ctx *RuntimeContext, cursor, depth int64, p unsafe
 	cursor = c
 	if !validEndNumberChar[buf[cursor]] {
 		return 0, errors.ErrUnexpectedEndOfJSON("float", cursor)
+	}
+	if !validNumber(bytes) {
+		return 0, errors.ErrSyntax(invalidNumberMessage(bytes), cursor)
 	}
 	s := *(*string)(unsafe.Pointer(&bytes))
 	f64, err := strconv.ParseFloat(s, 64)
